@@ -84,7 +84,13 @@ async fn hs_write(s: &mut TcpStream, b: &[u8]) {
 }
 
 /// acceptor side of the handshake with a conforming initiator
-pub async fn accept_handshake(mut s: TcpStream, peer_name: &str, flags: u64) -> Option<PeerConn> {
+pub async fn accept_handshake(s: TcpStream, peer_name: &str, flags: u64) -> Option<PeerConn> {
+    accept_handshake_tail(s, peer_name, flags, &[]).await
+}
+
+/// the same, with `tail` (already framed distribution bytes) written in one piece with the final handshake message: a peer
+/// that starts talking at once
+pub async fn accept_handshake_tail(mut s: TcpStream, peer_name: &str, flags: u64, tail: &[u8]) -> Option<PeerConn> {
     let _ = s.set_nodelay(true);
     let name = hs_read(&mut s).await?;
     hs_write(&mut s, b"sok").await;
@@ -111,7 +117,15 @@ pub async fn accept_handshake(mut s: TcpStream, peer_name: &str, flags: u64) -> 
     }
     let mut a = vec![b'a'];
     a.extend_from_slice(&handshake_digest(COOKIE.as_bytes(), their));
-    hs_write(&mut s, &a).await;
+    if tail.is_empty() {
+        hs_write(&mut s, &a).await;
+    } else {
+        let mut f = (a.len() as u16).to_be_bytes().to_vec();
+        f.extend_from_slice(&a);
+        f.extend_from_slice(tail);
+        let _ = s.write_all(&f).await;
+        let _ = s.flush().await;
+    }
     let (rd, wr) = s.into_split();
     Some(PeerConn { rd, wr, initiator_name: name[7..].to_vec() })
 }
